@@ -18,6 +18,7 @@ import (
 	"fmt"
 	"hash"
 	"io"
+	"time"
 
 	"golang.org/x/crypto/hkdf"
 	"golang.org/x/crypto/pbkdf2"
@@ -49,15 +50,28 @@ func run(c *vf.Ctx) {
 		"hardening: (A) pbkdf2.Key / hkdf.Extract / Expand / New receive password, salt, secret, PRK and info as private copies in sentinel-framed buffers (spare capacity behind the slice or cap == len, alternating) that must be intact after the call; password, salt, secret and PRK are wiped as soon as the call returns (info is kept by reference by the reader - unchanged behaviour - and only checked for writes); " +
 		"(C/E) for sha1/sha256/sha512: HKDF secret, salt, info, PRK and PBKDF2 password, salt of length 2^k+{-1,0,1,B-1,B,B+1}, k=7..22 (PRK/salt above 2^16: 2 deltas), PBKDF2 key lengths {255,256,257,65535,65536,65537}*hLen+{-1,0,1} (4-octet block index), iterations 255..257; " +
 		"(A/D) two readers (+ a third created afterwards) built from the same info (and salt) slice x {Expand,New} x {spare capacity, cap == len}: all 6^4 schedules of {A,B}.Read{1,hLen,hLen+1}, each reader must continue its own stream; " +
+		"constructor parameters x end of stream: (i) the limit-region read alphabet with the drain epilogue, ALL sequences of depth 2 (thorough 4), for sha1/sha256/sha512 x {Expand with PRK length{1,hLen-1,hLen+1,2hLen,B,B+1}, New with (secret,salt) length{(0,nil),(1,0),(200,B+1),(B+1,1)}, New and Expand(PRK hLen+1) with info length{0,200}}; " +
+		"(ii) hkdf.Expand with raw PRK length{1,hLen-1,hLen+1,2hLen,B,B+1,200} x 5 hashes x info length{0,1,10,200}: whole stream in reads {1,hLen+1,rest-7}, a Read of 8 with 7 left must fail with n=0, remainder, one more octet must fail, zero-length read succeeds; " +
+		"(iii) the long PRK / secret / salt (all lengths) and long info (up to 4 KiB) points read the whole stream and probe its end instead of the first blocks only; " +
 		"non-trivial = distinct (hash,keyLen>hLen) PBKDF2 shapes, distinct HKDF shapes, and distinct reader histories that contain a failing Read or cross a block boundary with a partly consumed block; state = (hash, bytes consumed) of the position model")
 	c.Assume("crypto/hmac, crypto/sha1, crypto/sha256, crypto/sha512 are correct (the reference models are built on them; /repo delegates to crypto/pbkdf2 and crypto/hkdf, which are not used by the models)")
 	c.Assume("values outside the value alphabet (fixed classes + seeded classes) are not enumerated")
 
+	t0 := time.Now()
+	lap := func(name string) {
+		c.Set("seconds_"+name, float64(int(time.Since(t0).Seconds()*10))/10)
+		t0 = time.Now()
+	}
 	pbkdf2Grid(c)
+	lap("pbkdf2_grid")
 	hkdfGrid(c)
+	lap("hkdf_grid")
 	longInputs(c)
+	lap("long_inputs")
 	interleavedReaders(c)
+	lap("interleaved_readers")
 	readerSequences(c)
+	lap("reader_sequences")
 }
 
 // ---------------------------------------------------------------- hardening helpers
@@ -314,11 +328,77 @@ func hkdfGrid(c *vf.Ctx) {
 			}
 			c.Outcome("hkdf-ok")
 		}
+		// Expand with a key that is not an Extract output: PRK length classes (rotating with the grid
+		// point, all of them for every hash x info length) x the whole stream x the end of the stream
+		pls := []int{1, g.h.size - 1, g.h.size + 1, 2 * g.h.size, g.h.block, g.h.block + 1, 200}
+		switch {
+		case g.saltl == -1 && g.sl == 0: // every PRK length class for every hash x info length
+			for _, pl := range pls {
+				expandRawPRK(c, g.h, pl, c.Bytes("hkdf-rawprk", pl, pl), c.Bytes("hkdf-info", 0, g.il))
+			}
+		case g.saltl == 0: // and one more value per remaining shape, rotating
+			pl := pls[(i/4)%len(pls)]
+			expandRawPRK(c, g.h, pl, c.Bytes("hkdf-rawprk", pl*7+g.sl, pl), c.Bytes("hkdf-info", g.sl, g.il))
+		}
 		c.Nontrivial(fmt.Sprintf("hkdf/%s/%d/%d/%d", g.h.name, g.sl, g.saltl, g.il))
 		if g.sl == 200 && g.saltl == -1 && g.il == 10 && c.WantSample() {
 			c.Sample(map[string]any{"part": "hkdf", "hash": g.h.name, "secretLen": g.sl, "salt": "nil", "infoLen": g.il, "stream_bytes_compared": limit})
 		}
 	})
+}
+
+// expandRawPRK: hkdf.Expand with an arbitrary key: the whole 255*HashLen stream in reads of
+// {1, HashLen+1, rest}, then a read of one more octet than remains (at the end: 1) must fail with
+// n == 0, and a zero-length read must succeed.
+func expandRawPRK(c *vf.Ctx, h hdef, pl int, prk, info []byte) {
+	limit := 255 * h.size
+	d := map[string]any{"hash": h.name, "prkLen": pl, "infoLen": len(info)}
+	want := kdfref.HKDFStream(h.new, prk, info)
+	fprk, gprk := guard(prk, pl%2 == 0)
+	var bad string
+	p, val, _ := vf.Protect(func() {
+		r := hkdf.Expand(h.new, gprk, info)
+		wipe(fprk)
+		got := make([]byte, limit)
+		pos := 0
+		for _, n := range []int{1, h.size + 1, limit - h.size - 2 - 7} {
+			if k, err := r.Read(got[pos : pos+n]); err != nil || k != n {
+				bad, d["read"], d["offset"], d["n"], d["err"] = "fewer than 255*HashLen bytes available", n, pos, k, fmt.Sprint(err)
+				return
+			}
+			pos += n
+		}
+		// 7 octets remain: a read of 8 must fail without consuming them
+		var over [8]byte
+		if k, err := r.Read(over[:]); err == nil || k != 0 {
+			bad, d["n"] = "a Read crossing the 255*HashLen limit succeeds", k
+			return
+		}
+		if k, err := r.Read(got[pos:]); err != nil || k != 7 {
+			bad, d["n"], d["err"] = "the remainder is not available after a refused Read", k, fmt.Sprint(err)
+			return
+		}
+		if !bytes.Equal(got, want) {
+			bad = "stream != RFC 5869 model"
+			return
+		}
+		if k, err := r.Read(over[:1]); err == nil || k != 0 {
+			bad = "more than 255*HashLen bytes available"
+			return
+		}
+		if k, err := r.Read(nil); err != nil || k != 0 {
+			bad = "zero-length Read at the end fails"
+		}
+	})
+	c.Eval(1)
+	switch {
+	case p:
+		d["panic"] = fmt.Sprint(val)
+		c.Violation("hkdf.Expand with a PRK that is not HashLen long panics", d)
+	case bad != "":
+		c.Violation("hkdf.Expand with a PRK that is not HashLen long: "+bad, d)
+	}
+	c.Nontrivial(fmt.Sprintf("hkdf-rawprk/%s/%d/%d", h.name, pl, len(info)))
 }
 
 // ---------------------------------------------------------------- reader sequences
@@ -356,6 +436,62 @@ func readerSequences(c *vf.Ctx) {
 					x /= len(ops)
 				}
 				runHistory(c, h, vname, mk, stream, limit, hist, idx)
+			})
+			if c.Expired() {
+				return
+			}
+		}
+		// Constructor-parameter classes crossed with the limit region: the same read alphabet and
+		// drain epilogue (depth 2; thorough 4) for Expand with a PRK that is NOT HashLen octets long
+		// (Expand accepts any strong key), for New with other secret/salt length classes (nil salt,
+		// salt/secret longer than the hash block), and for empty and long info on both.
+		cdepth := 2
+		if c.Thorough {
+			cdepth = 4
+		}
+		ctotal := 1
+		for i := 0; i < cdepth; i++ {
+			ctotal *= len(ops)
+		}
+		type cfg struct {
+			name   string
+			mk     func() io.Reader
+			stream []byte
+		}
+		var cfgs []cfg
+		info0 := c.Bytes("rd-info", hi, 11)
+		for _, pl := range []int{1, L - 1, L + 1, 2 * L, h.block, h.block + 1} {
+			prk := c.Bytes("rd-prk", hi*1000+pl, pl)
+			cfgs = append(cfgs, cfg{fmt.Sprintf("Expand prkLen=%d", pl), func() io.Reader { return hkdf.Expand(h.new, append([]byte(nil), prk...), info0) },
+				kdfref.HKDFStream(h.new, prk, info0)})
+		}
+		for _, ss := range [][2]int{{0, -1}, {1, 0}, {200, h.block + 1}, {h.block + 1, 1}} {
+			secret := c.Bytes("rd-secret2", hi*1000+ss[0], ss[0])
+			var salt []byte
+			if ss[1] >= 0 {
+				salt = c.Bytes("rd-salt2", hi*1000+ss[1], ss[1])
+			}
+			cfgs = append(cfgs, cfg{fmt.Sprintf("New secretLen=%d saltLen=%d", ss[0], ss[1]),
+				func() io.Reader { return hkdf.New(h.new, append([]byte(nil), secret...), append([]byte(nil), salt...), info0) },
+				kdfref.HKDFStream(h.new, kdfref.HKDFExtract(h.new, secret, salt), info0)})
+		}
+		for _, il := range []int{0, 200} {
+			info := c.Bytes("rd-info2", hi*1000+il, il)
+			secret, salt := c.Bytes("rd-secret", hi, 32), c.Bytes("rd-salt", hi, 16)
+			prk := kdfref.HKDFExtract(h.new, secret, salt)
+			odd := c.Bytes("rd-prk", hi*1000+L+1, L+1)
+			cfgs = append(cfgs,
+				cfg{fmt.Sprintf("New infoLen=%d", il), func() io.Reader { return hkdf.New(h.new, secret, salt, info) }, kdfref.HKDFStream(h.new, prk, info)},
+				cfg{fmt.Sprintf("Expand prkLen=%d infoLen=%d", L+1, il), func() io.Reader { return hkdf.Expand(h.new, odd, info) }, kdfref.HKDFStream(h.new, odd, info)})
+		}
+		for _, cf := range cfgs {
+			c.ParallelFor(ctotal, func(idx int) {
+				hist := make([]int, cdepth)
+				for i, x := cdepth-1, idx; i >= 0; i-- {
+					hist[i] = ops[x%len(ops)]
+					x /= len(ops)
+				}
+				runHistory(c, h, cf.name, cf.mk, cf.stream, limit, hist, idx)
 			})
 			if c.Expired() {
 				return
@@ -531,27 +667,74 @@ func longInputs(c *vf.Ctx) {
 				prk := hkdf.Extract(j.h.new, secret, salt)
 				r := hkdf.New(j.h.new, secret, salt, short)
 				wipe(flong) // the caller wipes the long buffer right after New
-				got = make([]byte, 2*j.h.size+1)
-				if _, err := io.ReadFull(r, got); err != nil {
+				limit := 255 * j.h.size
+				got = make([]byte, limit)
+				if _, err := io.ReadFull(r, got[:limit-3]); err != nil {
 					got = nil
+				} else if n, err := r.Read(make([]byte, 4)); err == nil || n != 0 {
+					got = []byte("a Read crossing the limit succeeded")
+				} else if _, err := io.ReadFull(r, got[limit-3:]); err != nil {
+					got = nil
+				} else if n, err := r.Read(make([]byte, 1)); err == nil || n != 0 {
+					got = []byte("more than 255*HashLen bytes available")
 				}
 				got = append(prk, got...)
 				wipe(flong)
 			})
 			wprk := kdfref.HKDFExtract(j.h.new, ms, mt)
-			want = append(append([]byte(nil), wprk...), kdfref.HKDFBlocks(j.h.new, wprk, short, 3)[:2*j.h.size+1]...)
+			want = append(append([]byte(nil), wprk...), kdfref.HKDFStream(j.h.new, wprk, short)...)
 		case "hkdf prk":
+			// long key x the WHOLE stream x the end of the stream (the key is hashed once, so this is cheap)
+			limit := 255 * j.h.size
 			p, val, _ = vf.Protect(func() {
 				r := hkdf.Expand(j.h.new, glong, short)
 				wipe(flong)
-				got = make([]byte, 2*j.h.size+1)
-				if _, err := io.ReadFull(r, got); err != nil {
+				got = make([]byte, limit)
+				if _, err := io.ReadFull(r, got[:limit-3]); err != nil {
 					got = nil
+				} else if n, err := r.Read(make([]byte, 4)); err == nil || n != 0 {
+					got = []byte("a Read crossing the limit succeeded")
+				} else if _, err := io.ReadFull(r, got[limit-3:]); err != nil {
+					got = nil
+				} else if n, err := r.Read(make([]byte, 1)); err == nil || n != 0 {
+					got = []byte("more than 255*HashLen bytes available")
 				}
 				wipe(flong)
 			})
-			want = kdfref.HKDFBlocks(j.h.new, long, short, 3)[:2*j.h.size+1]
+			// model: the naive stream re-keys HMAC with the long key for every block; a key longer than
+			// the hash block is, by RFC 2104, the same as its digest - used for the full stream, while the
+			// first three blocks are also computed with the long key itself
+			mkey := long
+			if len(long) > j.h.block {
+				hh := j.h.new()
+				hh.Write(long)
+				mkey = hh.Sum(nil)
+			}
+			want = kdfref.HKDFStream(j.h.new, mkey, short)
+			if !bytes.HasPrefix(want, kdfref.HKDFBlocks(j.h.new, long, short, 3)) {
+				c.Violation("harness: RFC 2104 key shortening disagrees with the direct model", d)
+				return
+			}
 		case "hkdf info":
+			if j.n <= 1<<12+200 {
+				// info up to 4 KiB: the whole stream and its end as well
+				limit := 255 * j.h.size
+				p, val, _ = vf.Protect(func() {
+					r := hkdf.Expand(j.h.new, short, glong)
+					got = make([]byte, limit)
+					if _, err := io.ReadFull(r, got[:limit-3]); err != nil {
+						got = nil
+					} else if n, err := r.Read(make([]byte, 4)); err == nil || n != 0 {
+						got = []byte("a Read crossing the limit succeeded")
+					} else if _, err := io.ReadFull(r, got[limit-3:]); err != nil {
+						got = nil
+					} else if n, err := r.Read(make([]byte, 1)); err == nil || n != 0 {
+						got = []byte("more than 255*HashLen bytes available")
+					}
+				})
+				want = kdfref.HKDFStream(j.h.new, short, glong)
+				break
+			}
 			p, val, _ = vf.Protect(func() {
 				r := hkdf.Expand(j.h.new, short, glong)
 				got = make([]byte, 2*j.h.size+1)
